@@ -17,6 +17,25 @@ pub fn main_entry() {
         eprintln!("usage: tpv <engine> [--tier T --seed N --shard i --nshards n --out f --replay f --budget-s S]");
         std::process::exit(2);
     }
+    if argv[0] == "run-st" {
+        // triage helper: tpv run-st <file.st> [cycles]  -> storage walk after every cycle
+        let text = std::fs::read_to_string(&argv[1]).expect("read");
+        let n: usize = argv.get(2).and_then(|s| s.parse().ok()).unwrap_or(1);
+        match trust_runtime::harness::TestHarness::from_source(&text) {
+            Err(e) => println!("REJECTED: {e}"),
+            Ok(mut h) => {
+                for c in 0..n {
+                    h.advance_time(trust_runtime::value::Duration::from_millis(10));
+                    let r = h.cycle();
+                    println!("-- cycle {c}: errors {:?}", r.errors);
+                    for (k, v) in walk::snapshot(h.runtime().storage()) {
+                        println!("{k} = {v}");
+                    }
+                }
+            }
+        }
+        return;
+    }
     if argv[0] == "c05-names" {
         engines::c05::debug_names(argv.get(1).and_then(|s| s.parse().ok()).unwrap_or(1));
         return;
